@@ -12,7 +12,7 @@
    read_text          framing + padding of short lines + record dispatch of a byte text
    T                  the code tables regenerated from the source of this run *)
 From Coq Require Import String List NArith ZArith Bool.
-From ACH Require Import TamperText TamperTextFacts TamperTextLift TruncBytes NumFacts Tables C03Obl C04TextObl.
+From ACH Require Import TamperText TamperTextFacts TamperTextLift TruncBytes TruncCtl NumFacts Tables C03Obl C04TextObl.
 Import ListNotations.
 Local Open Scope nat_scope.
 
@@ -113,6 +113,18 @@ Theorem C04_truncation_blank_tail : forall adv r c, last_significant adv <= c <=
 Proof. exact c04_truncation_blank_tail. Qed.
 Print Assumptions C04_truncation_blank_tail.
 
+(* the accepted alternative of the third case: with a non-zero original entry/addenda count
+   (its column holding digits) the cut lies behind column 21 and Parse assigns the cut
+   control record exactly the values of the original one (block count included): the file
+   the reader builds is the original one *)
+Theorem C04_truncation_ctl_identical : forall f c,
+  ascii_records f -> 1 <= c < 94 -> digitsb (column (f_ctl f) 13 21) = true ->
+  fc_count (fl_ctl (skel f)) <> 0%Z ->
+  skel (with_ctl f (cut_line (f_ctl f) c)) = skel f ->
+  parse (fctl_layout (adv_file f)) (cut_line (f_ctl f) c) = parse (fctl_layout (adv_file f)) (f_ctl f).
+Proof. exact c04_truncation_ctl_identical. Qed.
+Print Assumptions C04_truncation_ctl_identical.
+
 (* non-vacuity: a PPD file written through the layouts satisfies every hypothesis, one
    replaced digit per kind of protected line is rejected with the expected rule, and the
    truncation verdicts at chosen offsets of the CRLF text (99 = no file, 0 = accepted) *)
@@ -139,3 +151,14 @@ Theorem C04_text_example_truncation :
   read_text (firstn 631 (write CRLF_b tx_file)) = Some tx_file /\
   read_text (write LF_b tx_file) = Some tx_file.
 Proof. exact tx_truncation_examples. Qed.
+
+(* a debits-only file cut inside its all-zero credit total: accepted with an identical parse
+   although the line differs; cut one column earlier (last debit digit lost): rejected *)
+Theorem C04_text_example_zero_tail :
+  read_validate T (skel td_file) = ROk /\ digitsb (column (f_ctl td_file) 13 21) = true /\
+  fc_count (fl_ctl (skel td_file)) = 2%Z /\
+  skel (with_ctl td_file (cut_line (f_ctl td_file) 44)) = skel td_file /\
+  cut_line (f_ctl td_file) 44 <> f_ctl td_file /\
+  parse L_FileControl (cut_line (f_ctl td_file) 44) = parse L_FileControl (f_ctl td_file) /\
+  read_validate T (skel (with_ctl td_file (cut_line (f_ctl td_file) 42))) = RFDebit.
+Proof. exact td_truncation_example. Qed.
